@@ -85,8 +85,16 @@ type scriptExec struct {
 }
 
 func newScriptExec(run *ev.Run, cfg scriptCfg, filter string) *scriptExec {
+	return newScriptExecBurst(run, cfg, filter, 0)
+}
+
+// newScriptExecBurst starts the attack with a pacer that releases the first
+// burst ticks back to back, without the controller waiting for quiescence in
+// between (the window between a tick hand-over and the receiving worker's
+// wake-up is only open then).
+func newScriptExecBurst(run *ev.Run, cfg scriptCfg, filter string, burst int) *scriptExec {
 	x := &scriptExec{run: run, cfg: cfg, filter: filter, received: map[uint64]bool{}}
-	x.pacer = &gatePacer{}
+	x.pacer = &gatePacer{auto: burst}
 	x.rt = &gateTransport{}
 	x.tg = &recTargeter{targets: defaultTargets()}
 	if scriptExecs++; scriptExecs%2 == 0 {
@@ -501,4 +509,35 @@ func sortedKeys(m map[string]int64) []string {
 	}
 	sort.Strings(out)
 	return out
+}
+
+
+// runBurst: B ticks are released in one burst while no request finishes and no
+// result is consumed. At the following quiescent state exactly min(B, max)
+// hits must have started: free capacity is used without waiting for another
+// request, and the cap holds.
+func runBurst(run *ev.Run, cfg scriptCfg, burst int, filter string) {
+	x := newScriptExecBurst(run, cfg, filter, burst)
+	x.script = append(x.script, fmt.Sprintf("burst-of-%d-ticks", burst))
+	want := burst
+	if uint64(want) > cfg.Max {
+		want = int(cfg.Max)
+	}
+	if !x.failed {
+		switch {
+		case x.st.Started < want:
+			x.violate("C03", "free-capacity-unused", "tick-burst",
+				fmt.Sprintf("%d ticks released back to back with max-workers %d and no request finishing: only %d hits started", burst, cfg.Max, x.st.Started), describeGs(goroutineDump()))
+		case x.st.Started > want:
+			x.violate("C03", "cap-exceeded", "tick-burst", fmt.Sprintf("%d ticks released back to back with max-workers %d: %d hits started", burst, cfg.Max, x.st.Started), "")
+		}
+	}
+	x.drain("stop")
+	run.Eval(1)
+	run.Count("burst_cases", 1)
+	run.Count("quiescence_polls", x.polls)
+	run.Count("quiescent_states", int64(len(x.states)))
+	if !x.failed {
+		run.Distinct(fmt.Sprintf("burst:%v:%d", cfg, burst))
+	}
 }
